@@ -127,11 +127,14 @@ def Scalar.ctorOk : Scalar → Bool
   | .void w => decide (1 ≤ w) && decide (w ≤ 64)
   | .comp _ => true
 
-/-- `ArrayType.__init__`: `capacity < 1` is rejected -/
+/-- `ArrayType.__init__`: `capacity < 1` is rejected.  `VariableLengthArrayType.__init__` builds the implicit length field
+    `UnsignedIntegerType(2 ** ceil(log2(max(8, capacity.bit_length()))))`, whose constructor rejects a width above 64
+    (`InvalidBitLengthError`): a variable-length capacity of `2 ** 64` or more is rejected, `2 ** 64 - 1` is accepted.
+    A fixed-length array has no length field: `uint8[2 ** 64]`, `uint8[2 ** 70]` are accepted. -/
 def Ty.ctorOk : Ty → Bool
   | .scalar s => s.ctorOk
   | .fixedArr e cap => e.ctorOk && decide (1 ≤ cap)
-  | .varArr e cap => e.ctorOk && decide (1 ≤ cap)
+  | .varArr e cap => e.ctorOk && decide (1 ≤ cap) && decide (cap < 2 ^ 64)
 
 def Scalar.deprecated : Scalar → Bool
   | .comp i => i.deprecated
